@@ -18,7 +18,7 @@ func TestMain(m *testing.M) { lib.Main(m) }
 
 var spec = lib.Spec{
 	ID: "C04",
-	Rule: "generated dependency graphs (4-12 targets in 1-3 packages; chains, diamonds, fan-in, filegroups between genrules, a require/provide pair that redirects a dependency, optionally every genrule defined through a subincluded wrapper so targets are discovered while parsing) " +
+	Rule: "generated dependency graphs (4-12 targets in 1-3 packages; chains, diamonds, fan-in, filegroups between genrules, a require/provide pair that redirects a dependency, optionally every genrule defined through a subincluded wrapper so targets are discovered while parsing, the subincluded file optionally itself built from a slow dependency and also used as a plain source; optionally run as `plz query deps`, where only what subinclude() needs is built) " +
 		"whose commands sleep a drawn 0-30 ms; each graph is built from an empty plz-out with 2 drawn worker counts from {1,2,4,16} and a drawn set of requested roots that share dependencies. " +
 		"Invariant over the action log + plz's trace: every label has <= 1 start and <= 1 end event; for every (transitive) dependency edge t->d between commands, end(d) precedes start(t); plz exits 0; " +
 		"every activated target has exactly one terminal Build event with a success description; no Go panic in stderr. " +
@@ -33,6 +33,9 @@ type Case struct {
 	R       *lib.Repo
 	Req     []string
 	Workers []int
+	// Query: run `plz query deps` instead of `plz build`: nothing is requested to be built, only what
+	// subinclude() needs gets built (targets are first queued as not-to-be-built and promoted later).
+	Query bool `json:",omitempty"`
 }
 
 func gen(t *rapid.T) Case {
@@ -101,7 +104,23 @@ func gen(t *rapid.T) Case {
 		r.Targets = append(r.Targets, l, rr, top)
 		forced = append(forced, top.Label())
 	}
+	if r.Subinclude && rapid.Bool().Draw(t, "defs_chain") {
+		// the subincluded file is itself built, from a slow dependency in another package; some ordinary
+		// targets also use it as a plain source (so it is reached both as a dependency and via subinclude)
+		r.DefsChain = true
+		r.Pkgs = append(r.Pkgs, "slow", "defs")
+		r.Files = append(r.Files, lib.RFile{Pkg: "slow", Path: "s.txt", Content: "x\n"})
+		slow := &lib.RTarget{Pkg: "slow", Name: "gen", Kind: "genrule", Cmd: "cat", Srcs: []lib.RSrc{{File: "s.txt"}}, Outs: []string{"gen.out"}, SleepMs: rapid.IntRange(30, 150).Draw(t, "slow_ms")}
+		defs := &lib.RTarget{Pkg: "defs", Name: "defs", Kind: "genrule", Cmd: "defs", Srcs: []lib.RSrc{{Label: slow.Label()}}, Outs: []string{"defs.build_defs"}, SleepMs: rapid.IntRange(0, 30).Draw(t, "defs_ms")}
+		for _, x := range r.Targets {
+			if x.Kind == "genrule" && rapid.IntRange(0, 2).Draw(t, "plain_dep_on_defs") == 0 {
+				x.Srcs = append(x.Srcs, lib.RSrc{Label: defs.Label()})
+			}
+		}
+		r.Targets = append([]*lib.RTarget{slow, defs}, r.Targets...)
+	}
 	c := Case{R: r}
+	c.Query = r.DefsChain && rapid.Bool().Draw(t, "query_mode")
 	// several roots
 	ls := r.Labels()
 	n := rapid.IntRange(1, min(4, len(ls))).Draw(t, "nroots")
@@ -159,10 +178,18 @@ func run(c Case, o *lib.Obs) error {
 			}
 		}
 	}
+	if c.Query {
+		// only what subinclude() needs may (and must) be built
+		closure = st.TransitiveDeps([]string{"//defs:defs"})
+	}
 	for _, w := range c.Workers {
 		os.RemoveAll(filepath.Join(e.W, "plz-out"))
 		lib.ResetActions(e.W)
-		res := e.PlzW().Run(lib.BuildTimeout, append([]string{"build", "-n", fmt.Sprint(w)}, c.Req...)...)
+		verb := []string{"build"}
+		if c.Query {
+			verb = []string{"query", "deps"}
+		}
+		res := e.PlzW().Run(lib.BuildTimeout, append(append(verb, "-n", fmt.Sprint(w)), c.Req...)...)
 		if res.TimedOut {
 			return &lib.Inconclusive{Msg: "plz timed out"}
 		}
@@ -214,6 +241,12 @@ func run(c Case, o *lib.Obs) error {
 				return lib.Failf("ran-unneeded", "%s: %s ran but is not needed by the request", where, l)
 			}
 		}
+		if c.Query {
+			o.Label("query_mode")
+			lib.Rec(spec).AddExtra("plz_invocations", 1)
+			orderings.add(strings.Join(order, ","))
+			continue
+		}
 		term := res.Terminal("Build")
 		var ls []string
 		for l := range term {
@@ -241,6 +274,7 @@ func run(c Case, o *lib.Obs) error {
 	o.LabelIf(diamond, "diamond")
 	o.LabelIf(maxFanIn >= 3, "fan_in_3plus")
 	o.LabelIf(st.Subinclude, "subincluded_rules")
+	o.LabelIf(st.DefsChain, "subinclude_target_is_built")
 	for _, t := range st.Targets {
 		if len(t.Requires) > 0 && closure[t.Label()] {
 			o.Label("require_provide_in_closure")
@@ -258,7 +292,7 @@ func run(c Case, o *lib.Obs) error {
 	for _, t := range st.Targets {
 		desc = append(desc, fmt.Sprintf("%s(%s,%dms)<-%v", t.Label(), t.Kind, t.SleepMs, st.ResolvedDeps(t)))
 	}
-	o.Sample(map[string]any{"targets": desc, "request": c.Req, "workers": c.Workers, "subinclude": st.Subinclude})
+	o.Sample(map[string]any{"targets": desc, "request": c.Req, "workers": c.Workers, "subinclude": st.Subinclude, "defs_chain": st.DefsChain, "query_mode": c.Query})
 	return nil
 }
 
